@@ -141,6 +141,14 @@ def requiredForkFields : List String :=
   ["code", "storage", "transient_storage", "balance", "block", "context", "st", "jumpis", "path", "alias", "cnts", "sha3s",
    "storages", "balances"]
 
+/-- the backup taken before a sub-execution (which shares the caller's objects by reference and mutates them) and every restore
+from it (one per failing callee path; each continuation then mutates what it got) must be copies as deep as the mutation -/
+def backupOk (fields : List (String × Mode)) : Bool :=
+  ["code", "storage", "transient_storage", "balance"].all fun f =>
+    match lookupMode fields f with
+    | some m => decide (mutDepth f ≤ copyDepth m)
+    | none => false
+
 def forkSiteComplete (fields : List (String × Mode)) : Bool :=
   requiredForkFields.all fun f => (lookupMode fields f).isSome
 
